@@ -1648,6 +1648,14 @@ def real_tinytag_check(ctx):
                     if not d:
                         break
                     c += len(d)
+                if w.tell() != c:
+                    # StreamReaderWrapper served the sequential reads past the drained buffer itself: tell() is stale
+                    ctx.violation(KNOWN_BYPASS, "after %d bytes read in 4096-byte reads through StreamableSourceWrapper("
+                                  "StreamReaderWrapper) tell() is %d; a metadata probe from here rewinds and restores to "
+                                  "the stale position" % (c, w.tell()),
+                                  {"case": {"kind": kind, "size": size, "head": head, "prot": prot, "len": len(source)},
+                                   "note": "real TinyTag flow; sequential reads of 4096 bytes, then get_buffered_io_metadata"})
+                    continue
                 real_asyncio.set_event_loop(loop)
                 try:
                     loop.run_until_complete(A.get_buffered_io_metadata(w))
